@@ -315,7 +315,8 @@ func checkSignals(res *result, c *evCtx, ls []liveSub) (events int64) {
 	hk.WaitUntil(10*time.Second, func() bool {
 		for _, l := range ls {
 			if l.expect && l.certain && l.a.remote && !l.ordered && len(l.a.signals(c.ev)) == 0 && !l.a.termed.Load() {
-				return false
+				// nothing in flight any more: waiting longer cannot change the outcome
+				return netQuiescent()
 			}
 		}
 		return true
@@ -370,6 +371,15 @@ func checkSignals(res *result, c *evCtx, ls []liveSub) (events int64) {
 			} else if ok && !has {
 				res.violate("missing-"+kind+"-remote", "%s: remote subscription to %s: relation already removed on the subscriber's node, subscriber idle, no %s notification", l.a.label, c.ev, kind)
 			} else {
+				if dbgOn {
+					ra, _ := nodeA.Network().Node(nodeB.Name())
+					rb, _ := nodeB.Network().Node(nodeA.Name())
+					if ra != nil && rb != nil {
+						dbg("%s: no %s: A out=%d in=%d | B out=%d in=%d | netQuiescent=%v idle=%v signals now=%d all sigs=%v", l.a.label, kind, ra.Info().MessagesOut, ra.Info().MessagesIn, rb.Info().MessagesOut, rb.Info().MessagesIn, netQuiescent(), l.a.idle(), len(l.a.signals(c.ev)), l.a.signals(c.ev))
+					} else {
+						dbg("%s: no %s: connection gone", l.a.label, kind)
+					}
+				}
 				res.inconclusive(fmt.Sprintf("watchdog: remote subscriber %s got no %s notification within 10s (relation still present)", l.a.label, kind))
 			}
 		}
